@@ -123,7 +123,9 @@ def build_module(shape_label, P, conc_label, second_shape=None):
             D.method(single(Ss), 'bn', [arg(Sp, 'a'), arg(Ss, 'b')], tpl=[D.tparam('SS', [second]), D.tparam(P, [conc])]),
         ]))
     if not this_shape:
-        mod[0]['c'].append(D.func(single(S), 'fn', [arg(S, 'a', '4'), arg(other, 'o')], tpl=[D.tparam(P, [conc, second])]))
+        # (`This` has no meaning in a free function: a second shape that mentions it stays inside the class)
+        fother = other if not (second_shape and 'This' in second_shape) else T('ns::Other', 1, '&')
+        mod[0]['c'].append(D.func(single(S), 'fn', [arg(S, 'a', '4'), arg(fother, 'o')], tpl=[D.tparam(P, [conc, second])]))
         # two-parameter header: both parameters occur
         Sq = shapes(Q, False, qmember)[shape_label]
         mod[0]['c'].append(D.func(single(Sq), 'fn2', [arg(S, 'a'), arg(Sq, 'b')],
